@@ -63,7 +63,46 @@ def run(ctx):
     if ps:
         body = ctx.body(IV)
         q = quantifier(ctx, IV, ps)
-        ctx.check(q is not None and q["kind"] == "all", "D2-PKGDIR", IV, "for-all-required", "true iff every mandatory file exists (%s form)" % (q["form"] if q else "?"),
+        unrolled = None
+        if q is None:
+            # the quantifier over a constant table of entries was walked element by element by the evaluator (or the tests are written out one by
+            # one): every `true` path has tested pkgdir.join(<file of entry>).exists() for exactly the mandatory entries, all true
+            def tested(p):
+                out = {}
+                for c in p.conds():
+                    if is_call(c.term, "Path::exists") and isinstance(c.fact[1], bool):
+                        j = strip_refs(call_args(c.term)[0])
+                        while is_call(j, "Deref>::deref", "::as_path", "AsRef") and call_args(j):
+                            j = strip_refs(call_args(j)[0])
+                        if is_call(j, "Path::join") and strip_refs(call_args(j)[0]) == ("param", 2):
+                            nm = strip_refs(call_args(j)[1])
+                            ent = None
+                            if is_call(nm, TOF):
+                                a_ = agg_variant(strip_refs(resolve_promoted(ctx, strip_refs(call_args(nm)[0]))))
+                                ent = a_[1] if a_ and a_[0] == ME else None
+                            elif const_str(nm) is not None:
+                                ent = next((f["variant"] for f in files if f["file"] == const_str(nm)), None)
+                            if ent is None:
+                                return None
+                            out[ent] = c.fact[1]
+                        else:
+                            return None
+                return out
+            trues = [p for p in ret_paths(ps) if const_of(p.end[1]) is True]
+            tt = [tested(p) for p in trues]
+            if trues and all(t is not None for t in tt):
+                unrolled = tt
+        if unrolled is not None:
+            okall = all(set(t) == set(sp["mandatory"]) and all(t.values()) for t in unrolled)
+            ctx.check(okall, "D2-PKGDIR", IV, "for-all-required", "true iff every mandatory file exists (tests written out / table walked element by element)",
+                      "is_valid_pkgdir answers true after testing %s; the mandatory files are %s" % ([sorted(t) for t in unrolled][:2], sp["mandatory"]), fn_span(body))
+            ctx.check(okall, "D2-PKGDIR-REQUIRED", IV, "set", "requires exactly %s" % sorted(sp["mandatory"]), "the set of required files differs from the mandatory files", fn_span(body))
+            ctx.check(okall, "D2-PKGDIR", IV, "per-file-test", "each file: pkgdir.join(name).exists()", "a per-file test is not pkgdir.join(<mandatory file name>).exists()", fn_span(body))
+            isf_ok = all(any(is_call(c.term, "Path::is_file") and strip_refs(call_args(c.term)[0]) == ("param", 2) and c.fact == ("eq", False) for c in p.conds()[:1]) for p in ret_paths(ps) if const_of(p.end[1]) is True)
+            ctx.check(isf_ok, "D2-PKGDIR", IV, "plain-files-rejected-first", "a plain file is rejected before the metadata is looked at",
+                      "is_valid_pkgdir does not reject plain files before testing for the metadata files", fn_span(body), nontrivial=False)
+        else:
+          ctx.check(q is not None and q["kind"] == "all", "D2-PKGDIR", IV, "for-all-required", "true iff every mandatory file exists (%s form)" % (q["form"] if q else "?"),
                   "is_valid_pkgdir is not `every mandatory metadata file must exist`: %s" % ("no universally quantified test was recognised" if q is None else "the quantifier is `%s`" % q["kind"]), fn_span(body))
         if q is not None:
             # which files: the MetadataEntry variants the iterated collection is built from (directly, or through to_filename())
